@@ -650,6 +650,17 @@ def install_env_stubs(eng):
     def lockstub(nm):
         def f(e, st, args, ins):
             a = simp(args[0])
+            # interleaving points: a kernel TU may define verif_at_lock(lock, kind) - "what another thread does just before
+            # this thread gets the lock". It runs as a nested call before the acquisition (which is then re-executed).
+            # Lock calls made inside the hook itself acquire directly.
+            if "verif_at_lock" in e.m.funcs and not nm.endswith("unlock"):
+                depth = st.user.get("lock_hook_depth")
+                if depth is None:
+                    st.user["lock_hook_depth"] = len(st.frames)
+                    st.user["pending_call"] = ("verif_at_lock", [a, BV(0 if "rdlock" in nm else 1, 32)])
+                    return [(st, None)]
+                if len(st.frames) == depth:
+                    st.user["lock_hook_depth"] = None      # the hook has returned: this is the re-executed acquisition
             st.user.setdefault("locks", []).append((nm, a))
             st.events.append(("lock", nm, a))
             held = st.user.setdefault("held", {})
